@@ -43,6 +43,9 @@ def rules(ctx):
                       "add_constraint_eq_zero) and the recorded polynomial is a fresh, unshared copy", floor=6)
     meths = gate_methods(P)
     from . import C02
+    from .C07 import no_metadata_reads
+    ctx.rule('R06.6', "no function reachable from a gate method reads the display metadata `name` of an operand", floor=16)
+    no_metadata_reads(ctx, 'R06.6', [(fn, 'PCBO') for fn in meths.values()])
     C02.merge_discipline(ctx, 'R06.5', list(meths.values()) + [P.func('PCBO.add_constraint_eq_zero'),
                                                                P.func('_pcbo._special_constraints_eq_zero')])
     C02.recorded_copy_rules(ctx, E, P.func('PCBO.add_constraint_eq_zero'), 'R06.5', 'R06.5', 'PUBO')
@@ -102,6 +105,25 @@ def rules(ctx):
                 else:
                     msg = "gate method routes to %s, which may record under another relation or allocate ancillas" % m
             ctx.inst('R06.2', fn, r, ok, msg)
+            if ok and isinstance(v, ast.Call):
+                # the encoded polynomial / operands must not depend on the weight
+                dep = {'lam'}
+                changed = True
+                while changed:
+                    changed = False
+                    for n_ in ast.walk(fn.node):
+                        if isinstance(n_, (ast.Assign, ast.AugAssign)) and names_in(n_.value) & dep:
+                            for t_ in (n_.targets if isinstance(n_, ast.Assign) else [n_.target]):
+                                for nm in names_in(t_) - dep:
+                                    dep.add(nm)
+                                    changed = True
+                others = [a for a in v.args if not is_name(a, 'lam')] + \
+                         [k.value for k in v.keywords if k.arg != 'lam']
+                bad_ = [a for a in others if names_in(a) & dep]
+                ctx.inst('R06.2', fn, 'weight-free polynomial in %s' % fn.name, not bad_,
+                         "the polynomial and bounds handed on do not depend on lam" if not bad_ else
+                         "`%s` depends on the weight lam: the recorded constraint and the squared penalty are scaled a "
+                         "second time (satisfying assignments are penalised for lam != 1)" % src(bad_[0])[:60])
         # ------------------------------------------------------------ R06.3
         if name in ARITY:
             vparam = fn.node.args.vararg.arg if fn.node.args.vararg else None
